@@ -101,51 +101,29 @@ def dumpIx (f : Frag) : List (String × Json) :=
    ("xtc", Json.mkObj ((sortStrs (f.xtc.map (·.1)).eraseDups).map (fun x =>
       (x, Json.arr ((sortNats ((f.xtc.filter (·.1 == x)).map (·.2))).map jnat).toArray))))]
 
-/-- run one API call; the request decides which mutation method -/
-def runCall (call : Json) : Except String (M (Option Nat) × Option (ARow × Nat)) := do
+/-- decode one API call -/
+def callOf (call : Json) : Except String (Call × Option (ARow × Nat)) := do
   let m ← call.getObjValAs? String "m"
   if m == "podset" then
     let n ← call.getObjValAs? Nat "owner"
-    let a ← call.getObjValAs? String "xml"
-    let w ← call.getObjValAs? Bool "w"
-    let v ← call.getObjValAs? String "v"
-    return ((do ensureKnown [n]; setStringPod n a w v; pure none), none)
+    return (.podSet n (← call.getObjValAs? String "xml") (← call.getObjValAs? Bool "w") (← call.getObjValAs? String "v"), none)
   let row ← findRow (← call.getObjValAs? String "cls") (← call.getObjValAs? String "attr")
   let owner ← call.getObjValAs? Nat "owner"
-  let elemsJ := (call.getObjValAs? (Array Nat) "elems").toOption.map (·.toList)
-  let withElems {α} (k : List Nat → M α) : M α := do
-    ensureKnown [owner]
-    match elemsJ with
-    | some e => do ensureKnown e; k e
-    | none => do let e ← accGet tables row owner; k e
-  let known (v : Val) : M Unit := match v with | .elem n => ensureKnown [n] | _ => pure ()
+  let elems := (call.getObjValAs? (Array Nat) "elems").toOption.map (·.toList)
   let idx := (call.getObjValAs? Int "i").toOption.getD 0
-  let prog : M (Option Nat) ← (match m with
+  let c : Call ← (match m with
     | "create" => do
-      let hint := (call.getObjValAs? String "hint").toOption
-      let kw ← kwOf (← call.getObjVal? "kw")
-      pure (withElems fun e => do let n ← listCreate tables row owner e hint kw; pure (some n))
-    | "insert" => do
-      let v ← valOf (← call.getObjVal? "v")
-      pure (withElems fun e => do known v; listInsert row owner e idx v; pure none)
-    | "delitem" => pure (withElems fun e => do listDelItem tables row owner e idx; pure none)
-    | "setitem" => do
-      let v ← valOf (← call.getObjVal? "v")
-      pure (withElems fun e => do known v; listSetItem tables row owner e idx v; pure none)
-    | "set" => do
-      let vs ← (← call.getObjValAs? (Array Json) "vs").toList.mapM valOf
-      pure (do ensureKnown [owner]; forM_ vs known; accSet tables row owner vs; pure none)
-    | "del" => pure (do ensureKnown [owner]; accDel tables row owner; pure none)
+      pure (Call.create row owner elems (call.getObjValAs? String "hint").toOption (← kwOf (← call.getObjVal? "kw")))
+    | "insert" => do pure (Call.insert row owner elems idx (← valOf (← call.getObjVal? "v")))
+    | "delitem" => pure (Call.delItem row owner elems idx)
+    | "setitem" => do pure (Call.setItem row owner elems idx (← valOf (← call.getObjVal? "v")))
+    | "set" => do pure (Call.set row owner (← (← call.getObjValAs? (Array Json) "vs").toList.mapM valOf))
+    | "del" => pure (Call.del row owner)
     | "roleset" => do
       let nw ← call.getObjVal? "new"
-      let spec := NewSpec.mk (← nw.getObjValAs? String "hint") (← kwOf (← nw.getObjVal? "kw"))
-      pure (do
-        ensureKnown [owner]
-        if row.kind == .roleTagAccessor then roleTagSet 8 tables row owner spec
-        else raise (.unmodelled "single-valued assignment on this accessor kind")
-        pure none)
+      pure (Call.roleSet row owner (NewSpec.mk (← nw.getObjValAs? String "hint") (← kwOf (← nw.getObjVal? "kw"))))
     | other => throw s!"unknown method {other}")
-  pure (prog, some (row, owner))
+  pure (c, some (row, owner))
 
 def handle (st : State) (op : String) (j : Json) : Except String (State × Json) := do
   match op with
@@ -168,9 +146,8 @@ def handle (st : State) (op : String) (j : Json) : Except String (State × Json)
     let call ← j.getObjVal? "call"
     let draws := ((j.getObjValAs? (Array String) "draws").toOption.map (·.toList)).getD []
     let fresh := ((j.getObjValAs? (Array Nat) "fresh").toOption.map (·.toList)).getD []
-    let (prog, rel) ← runCall call
-    let s0 : State := { st with draws := draws, fresh := fresh, log := [], touched := [], hits := [], pending := [], pendingIds := [] }
-    let r := prog s0
+    let (c, rel) ← callOf call
+    let r := apiStep tables c (beginCall st draws fresh)
     let s1 := r.st
     let (err, why, created) := match r.val with
       | .ok c => (Json.null, Json.null, jopt jnat c)
